@@ -87,6 +87,33 @@ class Opaque:
     what: str = "text"
 
 
+STR_METHODS = {"split", "rsplit", "strip", "lstrip", "rstrip", "startswith", "endswith", "lower", "upper", "replace", "find", "rfind", "index", "partition", "rpartition",
+               "splitlines", "isidentifier", "isdigit", "isalpha", "isalnum", "isspace", "count", "title", "capitalize", "casefold", "removeprefix", "removesuffix", "center",
+               "ljust", "rjust", "zfill"}
+
+
+@dataclass(frozen=True)
+class Sym:
+    """An unknown value with a name: it can be stored, passed and compared for identity; nothing can be computed from it except by
+    applying an uninterpreted function to it (App)."""
+    name: str
+
+
+@dataclass(frozen=True)
+class App:
+    """The application of an uninterpreted function (a numpy function, a hedge, a norm) to values."""
+    fn: str
+    args: tuple
+    kwargs: tuple = ()
+
+
+@dataclass(frozen=True)
+class SymModule:
+    """A module whose functions are uninterpreted: `np.f(a, k=b)` evaluates to App("np.f", (a,), (("k", b),))."""
+    name: str
+    constants: tuple = ()
+
+
 @dataclass(frozen=True)
 class FString:
     """A formatted string: its literal pieces and the values formatted into it."""
@@ -251,6 +278,9 @@ class AbsExec:
     def __init__(self, qual: str, hooks: dict[str, Callable[..., Any]] | None = None, helpers: dict[str, Any] | None = None):
         self.qual = qual
         self.hooks = hooks or {}
+        self.function_resolver: Callable[[str], Any] | None = None  # name -> FunctionInfo of a module-level function of the package
+        self.concrete_strings = False  # interpret the methods of Python strings on concrete strings (split, strip, ...)
+        self.static_resolver: Callable[[str, str], Any] | None = None  # (name of a class or its alias, function) -> FunctionInfo of an in-package static function
         self.globals: dict[str, Any] = {}  # module-level names, visible in the interpreted function and in every inlined helper
         self.helpers = helpers or {}  # name -> FunctionInfo of in-package helper methods that may be interpreted when called on cls / self
         self.properties: dict[tuple[str, str], tuple[Any, Any]] = {}  # (class of the model object, attribute) -> (getter, setter) FunctionInfo
@@ -275,6 +305,8 @@ class AbsExec:
             return len(v) > 0
         if isinstance(v, Opaque) and v.what.startswith("nonempty"):
             return True
+        if isinstance(v, (Sym, App)) and "decide" in self.hooks:
+            return bool(self.hooks["decide"](self, v, e))  # a test on a symbolic value: the analysis explores both outcomes
         if isinstance(v, MObj) and "__bool__" in v.fields:
             return bool(v.fields["__bool__"])
         if isinstance(v, MObj) and "__len__" in v.fields:
@@ -358,6 +390,8 @@ class AbsExec:
             if isinstance(e.op, ast.Not):
                 return not self.truth(v, e.operand)
             self.used(v)
+            if isinstance(v, (Sym, App)):
+                return App(f"unop:{type(e.op).__name__}", (v,))
             if isinstance(e.op, ast.USub) and isinstance(v, (int, float)):
                 return -v
             raise self.unknown(e)
@@ -369,6 +403,19 @@ class AbsExec:
                 right = self.ev(c, env)
                 if not isinstance(op, (ast.Is, ast.IsNot)):
                     self.used(left, right)
+                if isinstance(left, (Sym, App)) or isinstance(right, (Sym, App)):
+                    if isinstance(op, (ast.Is, ast.IsNot)):
+                        r = (left == right) == isinstance(op, ast.Is)
+                    else:
+                        r = App(f"cmp:{type(op).__name__}", (freeze(left), freeze(right)))
+                        if len(e.ops) > 1:
+                            r = self.truth(r, e)
+                    if r is False:
+                        return False
+                    left = right
+                    if len(e.ops) == 1:
+                        return r
+                    continue
                 if isinstance(op, ast.Eq):
                     r = self.eq(left, right, e)
                 elif isinstance(op, ast.NotEq):
@@ -454,6 +501,8 @@ class AbsExec:
         if isinstance(e, ast.BinOp):
             a, b = self.ev(e.left, env), self.ev(e.right, env)
             self.used(a, b)
+            if isinstance(a, (Sym, App)) or isinstance(b, (Sym, App)):
+                return App(f"binop:{type(e.op).__name__}", (freeze(a), freeze(b)))
             num = (int, float)
             if isinstance(a, num) and isinstance(b, num) and not isinstance(a, bool) and not isinstance(b, bool):
                 try:
@@ -589,6 +638,13 @@ class AbsExec:
     def attr(self, v: Any, name: str, e: ast.AST) -> Any:
         if v is None:
             raise Internal("AttributeError", f"`{unparse(e)}`: attribute `{name}` of None", e)
+        if isinstance(v, (Sym, App)):
+            return ("bound", v, name)
+        if isinstance(v, SymModule):
+            consts = dict(v.constants)
+            if name in consts:
+                return consts[name]
+            return lambda ex_, e_, args, kw, f=f"{v.name}.{name}": App(f, tuple(freeze(a) for a in args), tuple(sorted((k, freeze(x)) for k, x in kw.items())))
         if isinstance(v, SettingsV):
             if name == "debugging":
                 return False
@@ -679,6 +735,10 @@ class AbsExec:
         if isinstance(f, Opaque):
             if f.what == "deque":
                 return list(args[0]) if args else []
+            if self.function_resolver is not None and isinstance(e.func, ast.Name):
+                h = self.function_resolver(e.func.id)
+                if h is not None:
+                    return self.call_closure(Closure(h.analysis_node if hasattr(h, "analysis_node") else h.node, {}), args, kw, e)
             return Opaque("call")
         raise self.unknown(e, "call target")
 
@@ -764,6 +824,11 @@ class AbsExec:
             return top[0]
         if name == "abs" and nums and len(args) == 1:
             return abs(args[0])
+        if name in ("int", "float") and len(args) == 1 and isinstance(args[0], str) and self.concrete_strings:
+            try:
+                return int(args[0]) if name == "int" else float(args[0])
+            except ValueError:
+                raise Raised("ValueError", e) from None
         if name in ("int", "float") and len(args) == 1 and (nums or isinstance(args[0], Lin)):
             return args[0] if isinstance(args[0], Lin) else (int(args[0]) if name == "int" else float(args[0]))
         if name in ("round", "pow"):
@@ -851,6 +916,15 @@ class AbsExec:
         hook = self.hooks.get(f"method:{name}")
         if hook is not None:
             return hook(self, e, recv, args, kw)
+        if self.concrete_strings and isinstance(recv, str) and name in STR_METHODS and all(isinstance(a, (str, int, type(None), tuple)) for a in list(args) + list(kw.values())):
+            try:
+                return getattr(recv, name)(*args, **kw)
+            except ValueError:
+                raise Raised("ValueError", e) from None
+            except TypeError:
+                raise Internal("TypeError", f"`{unparse(e)[:60]}`", e) from None
+        if isinstance(recv, (Sym, App)):
+            return App(f".{name}", (recv,) + tuple(freeze(a) for a in args), tuple(sorted((k, freeze(x)) for k, x in kw.items())))
         if isinstance(recv, list):
             if name == "append":
                 recv.append(args[0])
@@ -962,6 +1036,14 @@ class AbsExec:
                 return recv.kind == "function"
             if name == "is_operator":
                 return recv.kind == "operator"
+        if isinstance(recv, Opaque) and self.static_resolver is not None and f"method:{name}" not in self.hooks:
+            h = self.static_resolver(recv.what, name)
+            if h is not None:
+                node = h.analysis_node if hasattr(h, "analysis_node") else h.node
+                skip = 0 if "staticmethod" in getattr(h, "decorators", []) else 1
+                if skip:
+                    raise self.unknown(e, f"{recv.what}.{name} is not a static function")
+                return self.call_closure(Closure(node, {}), list(args), kw, e)
         if isinstance(recv, (Opaque, MObj)) and name in self.helpers and f"method:{name}" not in self.hooks:
             h = self.helpers[name]
             node = h.analysis_node if hasattr(h, "analysis_node") else h.node
@@ -1006,6 +1088,8 @@ class AbsExec:
         elif isinstance(target, (ast.Tuple, ast.List)):
             vs = list(self.iterate(v, target))
             if len(vs) != len(target.elts):
+                if isinstance(v, (list, tuple)) and not any(isinstance(t, ast.Starred) for t in target.elts):
+                    raise Raised("ValueError", target)  # too many / not enough values to unpack
                 raise self.unknown(target, "unpacking")
             for t, x in zip(target.elts, vs):
                 self.bind(t, x, env)
@@ -1129,6 +1213,8 @@ class AbsExec:
         elif isinstance(s, (ast.Import, ast.ImportFrom)):
             for a in s.names:
                 nm = a.asname or a.name
+                if nm in self.globals:
+                    continue  # the analysis supplies a model of this name
                 env.setdefault(nm, Opaque(a.name if a.name in ("deque",) else f"import:{a.name}"))
         elif isinstance(s, ast.FunctionDef):
             env[s.name] = Closure(s, env)
@@ -1279,3 +1365,33 @@ def write_only_lists(loop: ast.For, env: dict[str, Any]) -> set[str]:
         if ok and uses.get(name):
             out.add(name)
     return out
+
+
+class Decisions:
+    """Explores every outcome of the tests an interpretation makes on symbolic values: `run(decide)` is called repeatedly, each time
+    with a `decide` hook that replays a prefix of outcomes and answers True to anything beyond it; the prefixes are enumerated depth-first."""
+
+    def __init__(self, limit: int = 64):
+        self.limit = limit
+
+    def explore(self, run: Callable[[Callable[..., bool]], None]) -> int:
+        pending: list[list[bool]] = [[]]
+        runs = 0
+        while pending:
+            script = pending.pop()
+            taken: list[bool] = []
+
+            def decide(ex: Any, v: Any, e: Any, script: list[bool] = script, taken: list[bool] = taken) -> bool:
+                i = len(taken)
+                if i < len(script):
+                    taken.append(script[i])
+                else:
+                    pending.append(taken[:i] + [False])
+                    taken.append(True)
+                return taken[-1]
+
+            runs += 1
+            if runs > self.limit:
+                raise AnalysisError("more outcomes of tests on symbolic values than the analysis explores")
+            run(decide)
+        return runs
